@@ -35,9 +35,8 @@ def points(tier: str) -> List[Dict[str, Any]]:
     mixes = list(ADDR_MIX)
     for mix, ttls in itertools.product(mixes, ("default", "custom")):
         for allow in (False, True):
-            for tc in CONFLICT_TIMES:
-                if tier == "quick" and mix in ("v6", "none") and tc not in (None, 100, 349, 351):
-                    continue
+            for tc in (CONFLICT_TIMES if tier == "quick" else CONFLICT_TIMES + [t for t in range(-50, 520, 10) if t not in CONFLICT_TIMES]):
+
                 c2s = [None] if not (allow and tc is not None and tc < 350) else [None, 100, 349, 351]
                 for c2 in c2s:
                     pts.append({"kind": "peer", "mix": mix, "ttls": ttls, "allow": allow, "tc": tc, "c2": c2, "chain": 0})
